@@ -20,7 +20,7 @@ func init() {
 	core.Register(&core.Simple{
 		Id: "C10", Lvl: "exploration", Quick: 450, Thorough: 15000, PerBatch: 150, Width: 150, Timeout: 2400,
 		RuleText: "each case generates a directory tree (depth <= 4, fan-out <= 6, empty folders, hidden files and folders, file sizes 0..40 KiB, ASCII names of 1..60 bytes incl. spaces) and runs one of: folder download with a per-item action script (send / resume at an offset / skip), folder upload into a target that is empty or already holds complete files and .incomplete partials, upload followed by download of the same tree, or an upload whose connection is cut inside one file's data and which is then retried (the cut file must not appear under its final name; the retry must resume it). The reference folder-download client checks: item headers counted = announced item count; items = depth-first walk of names not starting with a dot, each once, with relative paths; for every file the size prefix and the bytes for the chosen action (flattened header consistent, exactly the file's data from the offset); nothing after the last item. The reference folder-upload client checks the action the server chooses per item (send / skip complete / resume from the partial's size) and that the resulting tree equals the streamed tree. distinct = (mode, items class, actions used); non-trivial = tree has at least 3 items",
-		Case: runCase,
+		Case:     runCase,
 	})
 }
 
